@@ -177,7 +177,7 @@ func cmdWork(args []string) int {
 				res.TimedOut = true
 				break
 			}
-			o := e.Exec(sc, harness.ExecOpts{})
+			o := harness.SafeExec(e, sc, harness.ExecOpts{})
 			res.Evaluations++
 			res.LastIndex = idxs[bi]
 			if o.Infra != "" {
